@@ -29,6 +29,7 @@ func assumptions() {
 	stats.Assume("Visvalingam minPointsToKeep is 0 or >= 2 (1 makes the algorithm remove an end point and dereference nil on every line of >= 3 vertices: a parameter-domain matter, not a geometry-kind one)")
 	stats.Assume("simplifiers are only driven with |coordinate| <= 1e150: beyond that triangle areas overflow to NaN, Visvalingam's heap mis-orders them, removes an end point and dereferences nil (arithmetic range, not a geometry-kind matter; reported as an observation)")
 	stats.Assume("tile validity (X < 2^zoom for a vertex at lon 180) is not asserted here: C13/C14")
+	stats.Assume("read-only means: the whole backing arrays of the argument (spare capacity included) are bit-for-bit unchanged; the argument of the read-only functions is laid out as consecutive windows of one shared buffer (40%), as slices with two watched spare slots (40%) or plainly (20%)")
 	stats.Assume("mvt is not among C20's entry points (orb documents that it rejects empty parts); the type-switch clause is decided through behaviour, the source scan is informational")
 }
 
@@ -95,6 +96,7 @@ func TestEnumCatalogue(t *testing.T) {
 					G: gG(g), H: gG(otherKind(g)), World: "grid", Box: gen.FromBound(b), Q: gen.P{1.25, 0.75},
 					Zoom: []int{5, 0, 9, 3}[bi], Thr: gen.F([]float64{0.5, 0, 10, 1}[bi]), Keep: []int{3, 0, 2, 5}[bi],
 					Factor: []int{0, 1, 10, 1000000}[bi], SRID: []int{4326, 0, 1, 3857}[bi], Proj: []string{"toMercator", "toWGS84", "affine", "toMercator"}[bi],
+					Layout: []string{"shared", "spare", "shared", "spare"}[bi],
 				}
 				stats.Eval("TestEnumCatalogue", 1)
 				if nonTrivial(g) {
